@@ -419,7 +419,9 @@ class SFixed(Template[_FixedTemplateArg], AssignableType):
                         selected_bits = self._val.lsb(rest=overflow + 1).msb(
                             rest=cutoff
                         )
-                        overflow_or_full = does_overflow or not ~selected_bits
+                        overflow_or_full = does_overflow or (
+                            not sign_bit and not ~selected_bits
+                        )
 
                         return Result(
                             raw=Value[Signed[Result._width]](
